@@ -1,24 +1,51 @@
 /-
-  C04 — the global null/error statement: in the response of a whole request every error's path is a position of
-  the data that holds `null`, and no two errors share a path (`null_error_bijection`); together with the local
-  theorems of `Props/C04.lean` (a resolver error / a non-null violation produces exactly one error at exactly its
-  position and nothing propagates) this is the correspondence "error paths = positions nulled by an error".
+  C04 — the global null/error statement: in the response of a whole request no two errors share a path, and every
+  error sits at — or, when a `ResolverError` interrupted the completion of a field value, below — an error whose path is
+  a position of the data that holds `null` (`null_error_bijection`); together with the local theorems of
+  `Props/C04.lean` (a resolver error / a non-null violation / a completion error produces exactly one error at exactly
+  its position and nothing propagates) this is the correspondence "error paths = positions nulled by an error".
 -/
 import PyGqlModel.Props.C04
+import PyGqlModel.Lemmas.C04Raise
 
 set_option linter.unusedSimpArgs false
 set_option linter.unusedVariables false
 
 namespace PyGql.Props.C04
-open PyGql PyGql.Exec
+open PyGql PyGql.Exec PyGql.Lemmas.C04Raise
 
-/-- every error produced under `path` points (relative to `path`) at a `null` of `d`; error paths are distinct -/
+/-- every error produced under `path` sits at or below (`suf`) an error of the same list whose position (`pre`,
+    relative to `path`) holds `null` in `d`; error paths are distinct -/
 def Inv (path : Path) (d : Data) (es : List Err) : Prop :=
-  (∀ e ∈ es, ∃ rel, e.path = path ++ rel ∧ Data.at d rel = some .null) ∧ (es.map (·.path)).Nodup
+  (∀ e ∈ es, ∃ pre suf, e.path = path ++ (pre ++ suf) ∧ Data.at d pre = some .null ∧ ∃ e' ∈ es, e'.path = path ++ pre)
+  ∧ (es.map (·.path)).Nodup
+
+/-- the errors carried by a travelling `ResolverError`: strictly below `path`, pairwise distinct -/
+def InvR (path : Path) (es : List Err) : Prop :=
+  (∀ e ∈ es, ∃ x rel, e.path = path ++ x :: rel) ∧ (es.map (·.path)).Nodup
+
+/-- all paths extend `path`, pairwise distinct -/
+def Under (path : Path) (es : List Err) : Prop :=
+  (∀ e ∈ es, ∃ rel, e.path = path ++ rel) ∧ (es.map (·.path)).Nodup
+
+/-- errors of list items `i, i+1, …` -/
+def ListUnder (path : Path) (i : Nat) (es : List Err) : Prop :=
+  (∀ e ∈ es, ∃ j rel, e.path = path ++ Seg.idx (i + j) :: rel) ∧ (es.map (·.path)).Nodup
 
 def isObjD : Data → Bool
   | .obj _ => true
   | _ => false
+
+private theorem under_of_inv {path : Path} {d : Data} {es : List Err} (h : Inv path d es) : Under path es :=
+  ⟨fun e he => by obtain ⟨pre, suf, hp, _⟩ := h.1 e he; exact ⟨pre ++ suf, hp⟩, h.2⟩
+
+private theorem under_of_invR {path : Path} {es : List Err} (h : InvR path es) : Under path es :=
+  ⟨fun e he => by obtain ⟨x, rel, hp⟩ := h.1 e he; exact ⟨x :: rel, hp⟩, h.2⟩
+
+private theorem invR_nil (path : Path) : InvR path [] := ⟨by intro e h; simp at h, by simp⟩
+
+private theorem invR_of_listUnder {path : Path} {es : List Err} (h : ListUnder path 0 es) : InvR path es :=
+  ⟨fun e he => by obtain ⟨j, rel, hp⟩ := h.1 e he; exact ⟨_, rel, hp⟩, h.2⟩
 
 private theorem at_null (rel : Path) (h : Data.at .null rel = some .null) : rel = [] := by
   cases rel with
@@ -33,7 +60,29 @@ private theorem at_leaf (j : J) (rel : Path) : Data.at (.leaf j) rel ≠ some .n
 private theorem inv_nil (path : Path) (d : Data) : Inv path d [] := ⟨by intro e h; simp at h, by simp⟩
 
 private theorem inv_single (path : Path) (locs : List Nat) (k : ErrKind) : Inv path .null [{ path := path, locs := locs, kind := k }] :=
-  ⟨by intro e h; simp at h; subst h; exact ⟨[], by simp, by simp [Data.at]⟩, by simp⟩
+  ⟨by intro e h; simp at h; subst h; exact ⟨[], [], by simp, by simp [Data.at], { path := path, locs := locs, kind := k }, by simp, by simp⟩, by simp⟩
+
+/-- `resolve_field` catching a `ResolverError`: the field is `null`, its error is at the field, what was recorded
+    below the field stays -/
+private theorem inv_caught (path : Path) (locs : List Nat) (k : ErrKind) (inner : List Err) (h : InvR path inner) :
+    Inv path .null (inner ++ [{ path := path, locs := locs, kind := k }]) := by
+  obtain ⟨ha, hn⟩ := h
+  refine ⟨?_, ?_⟩
+  · intro e he
+    simp at he
+    rcases he with he | rfl
+    · obtain ⟨x, rel, hp⟩ := ha e he
+      exact ⟨[], x :: rel, by simpa using hp, by simp [Data.at], { path := path, locs := locs, kind := k }, by simp, by simp⟩
+    · exact ⟨[], [], by simp, by simp [Data.at], { path := path, locs := locs, kind := k }, by simp, by simp⟩
+  · rw [List.map_append, List.nodup_append]
+    refine ⟨hn, by simp, ?_⟩
+    intro a ha' b hb' hab
+    simp at ha' hb'
+    obtain ⟨ea, hea, rfl⟩ := ha'
+    obtain ⟨x, rel, hp⟩ := ha ea hea
+    rw [hp, hb'] at hab
+    have := congrArg List.length hab
+    simp at this
 
 private theorem prefix_idx_ne (path rel rel' : Path) (i j : Nat) (h : i ≠ j) :
     path ++ Seg.idx i :: rel ≠ path ++ Seg.idx j :: rel' := by
@@ -49,19 +98,121 @@ private theorem prefix_key_ne (path rel rel' : Path) (k k' : String) (h : k ≠ 
   simp at this
   exact h this.1
 
-/-- list items: errors of item `j` live under index `i + j` -/
+private theorem listUnder_nil (path : Path) (i : Nat) : ListUnder path i [] := ⟨by intro e h; simp at h, by simp⟩
+
+private theorem listUnder_head (path : Path) (i : Nat) (es : List Err) (h : Under (path ++ [Seg.idx i]) es) : ListUnder path i es :=
+  ⟨fun e he => by obtain ⟨rel, hp⟩ := h.1 e he; exact ⟨0, rel, by simpa [List.append_assoc] using hp⟩, h.2⟩
+
+private theorem listUnder_cons (path : Path) (i : Nat) (e1 e2 : List Err) (h1 : Under (path ++ [Seg.idx i]) e1)
+    (h2 : ListUnder path (i + 1) e2) : ListUnder path i (e1 ++ e2) := by
+  obtain ⟨ha, hn1⟩ := h1
+  obtain ⟨hb, hn2⟩ := h2
+  have A : ∀ e ∈ e1, ∃ rel, e.path = path ++ Seg.idx i :: rel := by
+    intro e he
+    obtain ⟨rel, hp⟩ := ha e he
+    exact ⟨rel, by simpa [List.append_assoc] using hp⟩
+  refine ⟨?_, ?_⟩
+  · intro e he
+    simp at he
+    rcases he with he | he
+    · obtain ⟨rel, hp⟩ := A e he
+      exact ⟨0, rel, by simpa using hp⟩
+    · obtain ⟨j, rel, hp⟩ := hb e he
+      exact ⟨j + 1, rel, by rw [hp]; congr 2; simp; omega⟩
+  · rw [List.map_append, List.nodup_append]
+    refine ⟨hn1, hn2, ?_⟩
+    intro a ha' b hb' hab
+    simp at ha' hb'
+    obtain ⟨ea, hea, rfl⟩ := ha'
+    obtain ⟨eb, heb, rfl⟩ := hb'
+    obtain ⟨rel, hp⟩ := A ea hea
+    obtain ⟨j, rel', hp'⟩ := hb eb heb
+    rw [hp, hp'] at hab
+    exact prefix_idx_ne path rel rel' i (i + 1 + j) (by omega) hab
+
+/-- list items that all completed: the errors of item `j` live under index `i + j`, all distinct -/
+private theorem completeList_under_ok (f : Path → RVal → R (Data × List Err))
+    (hU : ∀ p v d es, f p v = .ok (d, es) → Under p es) (path : Path) :
+    ∀ (vs : List RVal) (i : Nat) (ds : List Data) (es : List Err), completeList f path i vs = .ok (ds, es) → ListUnder path i es := by
+  intro vs
+  induction vs with
+  | nil => intro i ds es h; simp [completeList] at h; rw [h.2]; exact listUnder_nil _ _
+  | cons v rest ih =>
+    intro i ds es h
+    simp only [completeList, bind, Except.bind, pure, Except.pure] at h
+    cases h1 : f (path ++ [Seg.idx i]) v with
+    | error e => simp [h1] at h
+    | ok p1 =>
+      obtain ⟨d1, e1⟩ := p1
+      simp only [h1] at h
+      cases h2 : completeList f path (i + 1) rest with
+      | error e => simp [h2] at h
+      | ok p2 =>
+        obtain ⟨ds2, e2⟩ := p2
+        simp [h2] at h
+        rw [← h.2]
+        exact listUnder_cons _ _ _ _ (hU _ _ _ _ h1) (ih _ _ _ h2)
+
+/-- list items: whichever way the list ends, the errors of item `j` live under index `i + j`, all distinct -/
+private theorem completeList_under (f : Path → RVal → R (Data × List Err))
+    (hU : ∀ p v d es, f p v = .ok (d, es) → Under p es)
+    (hR : ∀ p v k l inner, f p v = .error (.raised k l inner) → Under p inner) (path : Path) :
+    ∀ (vs : List RVal) (i : Nat),
+      (∀ ds es, completeList f path i vs = .ok (ds, es) → ListUnder path i es) ∧
+      (∀ k l inner, completeList f path i vs = .error (.raised k l inner) → ListUnder path i inner) := by
+  intro vs
+  induction vs with
+  | nil =>
+    intro i
+    refine ⟨?_, ?_⟩
+    · intro ds es h; simp [completeList] at h; rw [h.2]; exact listUnder_nil _ _
+    · intro k l inner h; simp [completeList] at h
+  | cons v rest ih =>
+    intro i
+    simp only [completeList, bind, Except.bind, pure, Except.pure]
+    cases h1 : f (path ++ [Seg.idx i]) v with
+    | error e =>
+      refine ⟨by intro ds es h; simp at h, ?_⟩
+      intro k l inner h
+      simp at h
+      subst h
+      exact listUnder_head _ _ _ (hR _ _ _ _ _ h1)
+    | ok p1 =>
+      obtain ⟨d1, e1⟩ := p1
+      simp only []
+      cases h2 : completeList f path (i + 1) rest with
+      | ok p2 =>
+        obtain ⟨ds2, e2⟩ := p2
+        refine ⟨?_, by intro k l inner h; simp at h⟩
+        intro ds es h
+        simp at h
+        rw [← h.2]
+        exact listUnder_cons _ _ _ _ (hU _ _ _ _ h1) ((ih (i + 1)).1 _ _ h2)
+      | error e =>
+        refine ⟨by intro ds es h; simp at h, ?_⟩
+        intro k l inner h
+        cases e with
+        | raised k' l' i' =>
+          simp at h
+          obtain ⟨rfl, rfl, rfl⟩ := h
+          exact listUnder_cons _ _ _ _ (hU _ _ _ _ h1) ((ih (i + 1)).2 _ _ _ h2)
+        | internal c => simp at h
+        | outOfFuel => simp at h
+        | unsupported => simp at h
+
+/-- list items that all completed: every error sits at or below an error pointing at a `null` inside its item -/
 private theorem completeList_inv (f : Path → RVal → R (Data × List Err))
     (hf : ∀ p v d es, f p v = .ok (d, es) → Inv p d es) (path : Path) :
     ∀ (vs : List RVal) (i : Nat) (ds : List Data) (es : List Err), completeList f path i vs = .ok (ds, es) →
-      (∀ e ∈ es, ∃ j rel dj, e.path = path ++ Seg.idx (i + j) :: rel ∧ ds[j]? = some dj ∧ Data.at dj rel = some .null)
-      ∧ (es.map (·.path)).Nodup := by
+      ∀ e ∈ es, ∃ j pre suf dj, e.path = path ++ Seg.idx (i + j) :: (pre ++ suf) ∧ ds[j]? = some dj ∧
+        Data.at dj pre = some .null ∧ ∃ e' ∈ es, e'.path = path ++ Seg.idx (i + j) :: pre := by
   intro vs
   induction vs with
   | nil =>
     intro i ds es h
     simp [completeList] at h
     obtain ⟨rfl, rfl⟩ := h
-    exact ⟨by intro e h; simp at h, by simp⟩
+    intro e h; simp at h
   | cons v rest ih =>
     intro i ds es h
     simp only [completeList, bind, Except.bind, pure, Except.pure] at h
@@ -76,32 +227,20 @@ private theorem completeList_inv (f : Path → RVal → R (Data × List Err))
         obtain ⟨ds2, e2⟩ := p2
         simp [h2] at h
         obtain ⟨rfl, rfl⟩ := h
-        obtain ⟨ha, hn1⟩ := hf _ _ _ _ h1
-        obtain ⟨hb, hn2⟩ := ih _ _ _ h2
-        have A : ∀ e ∈ e1, ∃ rel, e.path = path ++ Seg.idx i :: rel ∧ Data.at d1 rel = some .null := by
-          intro e he
-          obtain ⟨rel, hp, hd⟩ := ha e he
-          exact ⟨rel, by simpa [List.append_assoc] using hp, hd⟩
-        refine ⟨?_, ?_⟩
-        · intro e he
-          simp at he
-          rcases he with he | he
-          · obtain ⟨rel, hp, hd⟩ := A e he
-            exact ⟨0, rel, d1, by simpa using hp, by simp, hd⟩
-          · obtain ⟨j, rel, dj, hp, hg, hd⟩ := hb e he
-            exact ⟨j + 1, rel, dj, by rw [hp]; congr 2; simp; omega, by simpa using hg, hd⟩
-        · rw [List.map_append, List.nodup_append]
-          refine ⟨hn1, hn2, ?_⟩
-          intro a ha' b hb' hab
-          simp at ha' hb'
-          obtain ⟨ea, hea, rfl⟩ := ha'
-          obtain ⟨eb, heb, rfl⟩ := hb'
-          obtain ⟨rel, hp, _⟩ := A ea hea
-          obtain ⟨j, rel', dj, hp', _, _⟩ := hb eb heb
-          rw [hp, hp'] at hab
-          exact prefix_idx_ne path rel rel' i (i + 1 + j) (by omega) hab
+        obtain ⟨ha, _⟩ := hf _ _ _ _ h1
+        have hb := ih _ _ _ h2
+        intro e he
+        simp at he
+        rcases he with he | he
+        · obtain ⟨pre, suf, hp, hd, e', he', hp'⟩ := ha e he
+          exact ⟨0, pre, suf, d1, by simpa [List.append_assoc] using hp, by simp, hd, e', by simp [he'],
+            by simpa [List.append_assoc] using hp'⟩
+        · obtain ⟨j, pre, suf, dj, hp, hg, hd, e', he', hp'⟩ := hb e he
+          exact ⟨j + 1, pre, suf, dj, by rw [hp]; congr 2; simp; omega, by simpa using hg, hd, e', by simp [he'],
+            by rw [hp']; congr 2; simp; omega⟩
 
-/-- `complete_value`: errors point at nulls of the completed value; a `null` result of a nullable type has no error -/
+/-- `complete_value`: errors sit at or below errors pointing at nulls of the completed value; a `null` result of a
+    nullable type has no error -/
 private theorem completeValue_inv (s : SchemaD) (execSub : String → Path → List Sel → R (Data × List Err))
     (hsub : ∀ rt p sels d es, execSub rt p sels = .ok (d, es) → isObjD d = true ∧ Inv p d es) (nodes : List FNode) :
     ∀ (t : Ty), t.wf = true → ∀ (path : Path) (v : RVal) (d : Data) (es : List Err),
@@ -144,6 +283,14 @@ private theorem completeValue_inv (s : SchemaD) (execSub : String → Path → L
         cases k with
         | object => simp only [hk] at h; exact sub _ _ h
         | _ => simp [hk] at h
+    | raise vs msg ext =>
+      simp only [completeValue] at h
+      cases hk : kindOf s n with
+      | none => simp [hk] at h
+      | some k =>
+        cases k with
+        | object => simp only [hk] at h; exact sub _ _ h
+        | _ => simp [hk] at h
     | obj rt =>
       simp only [completeValue] at h
       cases hk : kindOf s n with
@@ -177,6 +324,11 @@ private theorem completeValue_inv (s : SchemaD) (execSub : String → Path → L
     | null => simp [completeValue] at h; obtain ⟨rfl, rfl⟩ := h; exact ⟨inv_nil _ _, fun _ _ => rfl⟩
     | leaf j => cases j <;> simp [completeValue] at h
     | obj rt => simp [completeValue] at h
+    | raise vs msg ext =>
+      simp only [completeValue] at h
+      cases h1 : completeList (completeValue s execSub nodes t) path 0 vs with
+      | error e => simp [h1] at h
+      | ok p => simp [h1] at h
     | list vs =>
       simp only [completeValue, bind, Except.bind, pure, Except.pure] at h
       cases h1 : completeList (completeValue s execSub nodes t) path 0 vs with
@@ -185,11 +337,12 @@ private theorem completeValue_inv (s : SchemaD) (execSub : String → Path → L
         obtain ⟨ds, e1⟩ := p
         simp [h1] at h
         obtain ⟨rfl, rfl⟩ := h
-        obtain ⟨ha, hn⟩ := completeList_inv _ (fun p v d es hh => (ih hwt p v d es hh).1) path vs 0 ds _ h1
+        have ha := completeList_inv _ (fun p v d es hh => (ih hwt p v d es hh).1) path vs 0 ds _ h1
+        have hn := (completeList_under_ok _ (fun p v d es hh => under_of_inv (ih hwt p v d es hh).1) path vs 0 ds _ h1).2
         refine ⟨⟨?_, hn⟩, by intro _ hd; simp at hd⟩
         intro e he
-        obtain ⟨j, rel, dj, hp, hg, hd⟩ := ha e he
-        exact ⟨Seg.idx j :: rel, by simpa using hp, by simp [Data.at, hg, hd]⟩
+        obtain ⟨j, pre, suf, dj, hp, hg, hd, e', he', hp'⟩ := ha e he
+        exact ⟨Seg.idx j :: pre, suf, by simpa using hp, by simp [Data.at, hg, hd], e', he', by simpa using hp'⟩
   | nonNull t ih =>
     intro hwf path v d es h
     have hw2 : t.isNonNull = false ∧ t.wf = true := by simpa [Ty.wf] using hwf
@@ -212,8 +365,118 @@ private theorem completeValue_inv (s : SchemaD) (execSub : String → Path → L
       | list l => simp [Data.isNull] at h; obtain ⟨rfl, rfl⟩ := h; exact hi
       | obj kvs => simp [Data.isNull] at h; obtain ⟨rfl, rfl⟩ := h; exact hi
 
+/-- `complete_value` interrupted by a `ResolverError`: what it carries was recorded strictly below `path` -/
+private theorem completeValue_invR (s : SchemaD) (execSub : String → Path → List Sel → R (Data × List Err))
+    (hsub : ∀ rt p sels d es, execSub rt p sels = .ok (d, es) → isObjD d = true ∧ Inv p d es)
+    (hsubR : ∀ rt p sels k l inner, execSub rt p sels = .error (.raised k l inner) → inner = []) (nodes : List FNode) :
+    ∀ (t : Ty), t.wf = true → ∀ (path : Path) (v : RVal) (k : ErrKind) (l : Option (List Nat)) (inner : List Err),
+      completeValue s execSub nodes t path v = .error (.raised k l inner) → InvR path inner := by
+  intro t
+  induction t with
+  | named n =>
+    intro _ path v k l inner h
+    have sub : ∀ rt sels, execSub rt path sels = .error (.raised k l inner) → InvR path inner := by
+      intro rt sels hh; rw [hsubR _ _ _ _ _ _ hh]; exact invR_nil _
+    cases v with
+    | null => simp [completeValue] at h
+    | leaf j =>
+      simp only [completeValue] at h
+      cases hk : kindOf s n with
+      | none => simp [hk] at h
+      | some kd =>
+        cases kd with
+        | object => simp only [hk] at h; exact sub _ _ h
+        | scalar => simp only [hk] at h; split at h <;> simp at h
+        | enum => simp only [hk] at h; split at h <;> simp at h
+        | _ => simp [hk] at h
+    | list vs =>
+      simp only [completeValue] at h
+      cases hk : kindOf s n with
+      | none => simp [hk] at h
+      | some kd =>
+        cases kd with
+        | object => simp only [hk] at h; exact sub _ _ h
+        | _ => simp [hk] at h
+    | raise vs msg ext =>
+      simp only [completeValue] at h
+      cases hk : kindOf s n with
+      | none => simp [hk] at h
+      | some kd =>
+        cases kd with
+        | object => simp only [hk] at h; exact sub _ _ h
+        | interface => simp [hk] at h; rw [h.2.2]; exact invR_nil _
+        | union => simp [hk] at h; rw [h.2.2]; exact invR_nil _
+        | _ => simp [hk] at h
+    | obj rt =>
+      simp only [completeValue] at h
+      cases hk : kindOf s n with
+      | none => simp [hk] at h
+      | some kd =>
+        cases kd with
+        | object => simp only [hk] at h; exact sub _ _ h
+        | scalar => simp [hk] at h
+        | enum => simp [hk] at h
+        | input => simp [hk] at h
+        | interface =>
+          simp only [hk] at h
+          cases hr : kindOf s rt with
+          | none => simp [hr] at h
+          | some k2 =>
+            cases k2 with
+            | object => simp only [hr] at h; split at h; exact sub _ _ h; simp at h
+            | _ => simp [hr] at h
+        | union =>
+          simp only [hk] at h
+          cases hr : kindOf s rt with
+          | none => simp [hr] at h
+          | some k2 =>
+            cases k2 with
+            | object => simp only [hr] at h; split at h; exact sub _ _ h; simp at h
+            | _ => simp [hr] at h
+  | list t ih =>
+    intro hwf path v k l inner h
+    have hwt : t.wf = true := by simpa [Ty.wf] using hwf
+    have hU : ∀ p v d es, completeValue s execSub nodes t p v = .ok (d, es) → Under p es :=
+      fun p v d es hh => under_of_inv (completeValue_inv s execSub hsub nodes t hwt p v d es hh).1
+    have hR : ∀ p v k l inner, completeValue s execSub nodes t p v = .error (.raised k l inner) → Under p inner :=
+      fun p v k l inner hh => under_of_invR (ih hwt p v k l inner hh)
+    have hl := completeList_under _ hU hR path
+    cases v with
+    | null => simp [completeValue] at h
+    | leaf j => cases j <;> simp [completeValue] at h
+    | obj rt => simp [completeValue] at h
+    | raise vs msg ext =>
+      simp only [completeValue] at h
+      cases h1 : completeList (completeValue s execSub nodes t) path 0 vs with
+      | error e =>
+        simp [h1] at h
+        subst h
+        exact invR_of_listUnder ((hl vs 0).2 _ _ _ h1)
+      | ok p =>
+        simp [h1] at h
+        rw [← h.2.2]
+        exact invR_of_listUnder ((hl vs 0).1 _ _ h1)
+    | list vs =>
+      simp only [completeValue, bind, Except.bind, pure, Except.pure] at h
+      cases h1 : completeList (completeValue s execSub nodes t) path 0 vs with
+      | error e =>
+        simp [h1] at h
+        subst h
+        exact invR_of_listUnder ((hl vs 0).2 _ _ _ h1)
+      | ok p => simp [h1] at h
+  | nonNull t ih =>
+    intro hwf path v k l inner h
+    have hw2 : t.isNonNull = false ∧ t.wf = true := by simpa [Ty.wf] using hwf
+    simp only [completeValue, bind, Except.bind, pure, Except.pure] at h
+    cases h1 : completeValue s execSub nodes t path v with
+    | error e => simp [h1] at h; subst h; exact ih hw2.2 path v k l inner h1
+    | ok p =>
+      simp only [h1] at h
+      split at h <;> simp at h
+
 private theorem resolveField_inv (s : SchemaD) (w : World) (execSub : String → Path → List Sel → R (Data × List Err))
     (hsub : ∀ rt p sels d es, execSub rt p sels = .ok (d, es) → isObjD d = true ∧ Inv p d es)
+    (hsubR : ∀ rt p sels k l inner, execSub rt p sels = .error (.raised k l inner) → inner = [])
     (parent : String) (path : Path) (nodes : List FNode) (fd : FieldD) (hwf : fd.type.wf = true) (d : Data) (es : List Err)
     (h : resolveField s w execSub parent path nodes fd = .ok (d, es)) : Inv path d es := by
   cases nodes with
@@ -226,7 +489,9 @@ private theorem resolveField_inv (s : SchemaD) (w : World) (execSub : String →
     · split at h
       · simp at h; obtain ⟨rfl, rfl⟩ := h; exact inv_single _ _ _
       · simp at h
-      · exact (completeValue_inv s execSub hsub _ fd.type hwf path _ d es h).1
+      · rcases catchField_eq_ok _ _ _ _ _ h with h | ⟨k, l, i, hc, rfl, rfl⟩
+        · exact (completeValue_inv s execSub hsub _ fd.type hwf path _ d es h).1
+        · exact inv_caught _ _ _ _ (completeValue_invR s execSub hsub hsubR _ fd.type hwf path _ k l i hc)
 
 private theorem definedKeys_subset (s : SchemaD) (parent : String) (g : Grouped) : ∀ x ∈ definedKeys s parent g, x ∈ g.keys := by
   induction g with
@@ -266,10 +531,12 @@ private theorem at_obj_key_mem (kvs : List (String × Data)) (k : String) (rel :
 
 private theorem executeGroups_inv (s : SchemaD) (hs : TypesWf s) (w : World) (execSub : String → Path → List Sel → R (Data × List Err))
     (hsub : ∀ rt p sels d es, execSub rt p sels = .ok (d, es) → isObjD d = true ∧ Inv p d es)
+    (hsubR : ∀ rt p sels k l inner, execSub rt p sels = .error (.raised k l inner) → inner = [])
     (parent : String) (path : Path) :
     ∀ (g : Grouped) (kvs : List (String × Data)) (es : List Err), g.keys.Nodup →
       executeGroups s w execSub parent path g = .ok (kvs, es) →
-      (∀ e ∈ es, ∃ k rel, e.path = path ++ Seg.key k :: rel ∧ Data.at (.obj kvs) (Seg.key k :: rel) = some .null)
+      (∀ e ∈ es, ∃ k pre suf, e.path = path ++ Seg.key k :: (pre ++ suf) ∧ Data.at (.obj kvs) (Seg.key k :: pre) = some .null ∧
+        ∃ e' ∈ es, e'.path = path ++ Seg.key k :: pre)
       ∧ (es.map (·.path)).Nodup := by
   intro g
   induction g with
@@ -304,10 +571,10 @@ private theorem executeGroups_inv (s : SchemaD) (hs : TypesWf s) (w : World) (ex
             obtain ⟨ha, hn⟩ := ih kvs' es' hnd' hr
             refine ⟨?_, hn⟩
             intro e he
-            obtain ⟨k, rel, hp, hd⟩ := ha e he
+            obtain ⟨k, pre, suf, hp, hd, he'⟩ := ha e he
             have hk : k ∈ kvs'.map (·.1) := at_obj_key_mem _ _ _ _ hd
             have hne : key ≠ k := fun e => keyNotIn _ _ hr (e ▸ hk)
-            exact ⟨k, rel, hp, by rw [at_obj_cons_ne _ _ _ _ _ hne]; exact hd⟩
+            exact ⟨k, pre, suf, hp, by rw [at_obj_cons_ne _ _ _ _ _ hne]; exact hd, he'⟩
         · have : (node.name == "__typename") = false := by simpa using ht
           simp only [this, Bool.false_eq_true, if_false] at h
           split at h <;> simp at h
@@ -327,35 +594,37 @@ private theorem executeGroups_inv (s : SchemaD) (hs : TypesWf s) (w : World) (ex
               obtain ⟨kvs', es'⟩ := p
               simp [hr] at h
               obtain ⟨rfl, rfl⟩ := h
-              obtain ⟨ha1, hn1⟩ := resolveField_inv s w execSub hsub parent _ _ fd (hs _ _ _ hf) d1 e1 hr1
+              obtain ⟨ha1, hn1⟩ := resolveField_inv s w execSub hsub hsubR parent _ _ fd (hs _ _ _ hf) d1 e1 hr1
               obtain ⟨ha, hn⟩ := ih kvs' es' hnd' hr
-              have A : ∀ e ∈ e1, ∃ rel, e.path = path ++ Seg.key key :: rel ∧ Data.at d1 rel = some .null := by
+              have A : ∀ e ∈ e1, ∃ pre suf, e.path = path ++ Seg.key key :: (pre ++ suf) ∧ Data.at d1 pre = some .null ∧
+                  ∃ e' ∈ e1, e'.path = path ++ Seg.key key :: pre := by
                 intro e he
-                obtain ⟨rel, hp, hd⟩ := ha1 e he
-                exact ⟨rel, by simpa [List.append_assoc] using hp, hd⟩
-              have B : ∀ e ∈ es', ∃ k rel, k ≠ key ∧ e.path = path ++ Seg.key k :: rel ∧ Data.at (.obj kvs') (Seg.key k :: rel) = some .null := by
+                obtain ⟨pre, suf, hp, hd, e', he', hp'⟩ := ha1 e he
+                exact ⟨pre, suf, by simpa [List.append_assoc] using hp, hd, e', he', by simpa [List.append_assoc] using hp'⟩
+              have B : ∀ e ∈ es', ∃ k pre suf, k ≠ key ∧ e.path = path ++ Seg.key k :: (pre ++ suf) ∧
+                  Data.at (.obj kvs') (Seg.key k :: pre) = some .null ∧ ∃ e' ∈ es', e'.path = path ++ Seg.key k :: pre := by
                 intro e he
-                obtain ⟨k, rel, hp, hd⟩ := ha e he
+                obtain ⟨k, pre, suf, hp, hd, he'⟩ := ha e he
                 have hk : k ∈ kvs'.map (·.1) := at_obj_key_mem _ _ _ _ hd
-                exact ⟨k, rel, fun e => keyNotIn _ _ hr (e ▸ hk), hp, hd⟩
+                exact ⟨k, pre, suf, fun e => keyNotIn _ _ hr (e ▸ hk), hp, hd, he'⟩
               refine ⟨?_, ?_⟩
               · intro e he
                 simp at he
                 rcases he with he | he
-                · obtain ⟨rel, hp, hd⟩ := A e he
-                  exact ⟨key, rel, hp, by simp [Data.at, hd]⟩
-                · obtain ⟨k, rel, hne, hp, hd⟩ := B e he
-                  exact ⟨k, rel, hp, by rw [at_obj_cons_ne _ _ _ _ _ (Ne.symm hne)]; exact hd⟩
+                · obtain ⟨pre, suf, hp, hd, e', he', hp'⟩ := A e he
+                  exact ⟨key, pre, suf, hp, by simp [Data.at, hd], e', by simp [he'], hp'⟩
+                · obtain ⟨k, pre, suf, hne, hp, hd, e', he', hp'⟩ := B e he
+                  exact ⟨k, pre, suf, hp, by rw [at_obj_cons_ne _ _ _ _ _ (Ne.symm hne)]; exact hd, e', by simp [he'], hp'⟩
               · rw [List.map_append, List.nodup_append]
                 refine ⟨hn1, hn, ?_⟩
                 intro a ha' b hb' hab
                 simp at ha' hb'
                 obtain ⟨ea, hea, rfl⟩ := ha'
                 obtain ⟨eb, heb, rfl⟩ := hb'
-                obtain ⟨rel, hp, _⟩ := A ea hea
-                obtain ⟨k, rel', hne, hp', _⟩ := B eb heb
+                obtain ⟨pre, suf, hp, _⟩ := A ea hea
+                obtain ⟨k, pre', suf', hne, hp', _⟩ := B eb heb
                 rw [hp, hp'] at hab
-                exact prefix_key_ne path rel rel' key k (Ne.symm hne) hab
+                exact prefix_key_ne path _ _ key k (Ne.symm hne) hab
 
 private theorem executeFields_inv (s : SchemaD) (hs : TypesWf s) (doc : Doc) (vars : Vars) (w : World) (cf : Nat) :
     ∀ (fuel : Nat) (parent : String) (path : Path) (sels : List Sel) (d : Data) (es : List Err),
@@ -370,7 +639,7 @@ private theorem executeFields_inv (s : SchemaD) (hs : TypesWf s) (doc : Doc) (va
     | error e => simp [h1] at h
     | ok p1 =>
       obtain ⟨g, seen'⟩ := p1
-      simp only [h1] at h
+      simp only [h1, catchDirective_ok] at h
       cases h2 : executeGroups s w (executeFields s doc vars w cf n) parent path g with
       | error e => simp [h2] at h
       | ok p2 =>
@@ -378,25 +647,61 @@ private theorem executeFields_inv (s : SchemaD) (hs : TypesWf s) (doc : Doc) (va
         simp [h2] at h
         obtain ⟨rfl, rfl⟩ := h
         have hnd := (alias_merge s doc vars cf parent sels [] g seen' h1).1
-        obtain ⟨ha, hn⟩ := executeGroups_inv s hs w _ (fun rt p sels d es hh => ih rt p sels d es hh) parent path g kvs _ hnd h2
+        obtain ⟨ha, hn⟩ := executeGroups_inv s hs w _ (fun rt p sels d es hh => ih rt p sels d es hh)
+          (fun rt p sels k l inner hh => (executeFields_raised s doc vars w cf n rt p sels k l inner hh).2.2.1) parent path g kvs _ hnd h2
         refine ⟨rfl, ?_, hn⟩
         intro e he
-        obtain ⟨k, rel, hp, hd⟩ := ha e he
-        exact ⟨Seg.key k :: rel, hp, hd⟩
+        obtain ⟨k, pre, suf, hp, hd, he'⟩ := ha e he
+        exact ⟨Seg.key k :: pre, suf, by simpa using hp, hd, he'⟩
 
 /-- **null_error_bijection** (global): in the response of a whole request, for every schema with well-formed field
-    types, every document, variables, world and fuel — every error's response path is a position of the data that
-    holds `null`, and no two errors have the same path. (Conversely, `resolver_error_null_one_error` and
-    `nonnull_violation_null_one_error` show that each failing resolver / non-null violation does produce its
-    error, with the field's location; `nullable_null_no_error`/`nonnull_ok_no_error` that nothing else does.) -/
+    types, every document, variables, world and fuel — no two errors have the same path, and every error sits at or
+    below an error whose response path is a position of the data that holds `null`. (Conversely,
+    `resolver_error_null_one_error`, `nonnull_violation_null_one_error` and `completion_error_is_field_error` show that
+    each failing resolver / non-null violation / interrupted completion does produce its error, with the field's
+    location; `nullable_null_no_error`/`nonnull_ok_no_error` that nothing else does.) "Below" cannot be dropped:
+    `error_below_null_witness`. -/
 theorem null_error_bijection (s : SchemaD) (hs : TypesWf s) (doc : Doc) (vars : Vars) (w : World) (cf fuel : Nat)
     (root : String) (sels : List Sel) : NullErrorBijection s doc vars w cf fuel root sels := by
   intro d es h
   obtain ⟨_, ha, hn⟩ := executeFields_inv s hs doc vars w cf fuel root [] sels d es h
   refine ⟨hn, ?_⟩
   intro e he
-  obtain ⟨rel, hp, hd⟩ := ha e he
-  simp at hp
-  rw [hp]; exact hd
+  obtain ⟨pre, suf, hp, hd, e', he', hp'⟩ := ha e he
+  simp at hp hp'
+  exact ⟨e', he', suf, by rw [hp, hp'], by rw [hp']; exact hd⟩
+
+/-- **root_failure_single_error**: when the ROOT selection set cannot be collected (`execute`: `data = None`), the
+    response carries exactly one error, without path and without field location -/
+theorem root_failure_single_error (s : SchemaD) (doc : Doc) (vars : Vars) (w : World) (cf fuel : Nat) (root : String)
+    (sels : List Sel) (k : ErrKind) (l : Option (List Nat)) (inner : List Err)
+    (h : executeFields s doc vars w cf fuel root [] sels = .error (.raised k l inner)) :
+    inner ++ [({ path := [], locs := l.getD [], kind := k } : Err)] = [{ path := [], locs := [], kind := .directive }] := by
+  obtain ⟨rfl, rfl, rfl, _⟩ := executeFields_raised s doc vars w cf fuel root [] sels k l inner h
+  rfl
+
+end PyGql.Props.C04
+
+namespace PyGql.Props.C04
+open PyGql PyGql.Exec
+
+/-! ### "below" cannot be dropped: an interrupted list keeps the errors of the items already completed -/
+def wSchema : SchemaD :=
+  { types := [{ kind := .object, name := "Query", fields := [{ name := "xs", type := .list (.named "Ob") }] },
+              { kind := .object, name := "Ob", fields := [{ name := "y", type := .named "Int" }] }] }
+def wDoc : Doc :=
+  { ops := [{ kind := "query", name := none,
+              sels := [.field "xs" "xs" 2 [] [("Query", some "")] true [.field "y" "y" 7 [] [("Ob", some "")] false []]] }], frags := [] }
+/-- `xs` is a generator yielding one `Ob` and then raising `ResolverError`; `y` raises `ResolverError` -/
+def wWorld : World := fun parent _ _ _ =>
+  if parent == "Query" then .val (.raise [.obj "Ob"] "lazy" none) else .err "bad" none
+
+/-- the error of `xs[0].y`, recorded before the iterable of `xs` raised, stays although `xs` is `null` -/
+theorem error_below_null_witness :
+    executeFields wSchema wDoc [] wWorld 3 3 "Query" [] (wDoc.ops.head!).sels
+      = .ok (.obj [("xs", .null)],
+             [{ path := [.key "xs", .idx 0, .key "y"], locs := [7], kind := .resolver "bad" none },
+              { path := [.key "xs"], locs := [2], kind := .resolver "lazy" none }]) := by
+  rfl
 
 end PyGql.Props.C04
